@@ -127,13 +127,23 @@ def o_power(spec, r, extra):
     desc = f"{PK[kind]} at x = {re!r}" + (f" + {im!r}i" if kind in (1, 3, 5, 6, 9, 11) else '') + f", n = {ni if kind in (2, 3, 10, 11) else nr!r}"
     if r['status'] != 'ok' or r['ret'] == H_THROW: return True, f"{desc}: {r['status']} / threw"
     b = power_bad(kind, re, im, nr, ni, r['ret'], r['outs'][0]); return (b is not None), f"{desc}: {b}"
+def c_round(v):
+    """C round(): nearest integer, halves away from zero (a - floor(a) is exact below 2^52, so no double rounding as in floor(a + 0.5))"""
+    a = abs(v)
+    if a >= 2.0 ** 52 or a != a: return v
+    f = math.floor(a); return math.copysign(f + 1.0 if a - f >= 0.5 else float(f), v)
+def o_round(spec, r, extra):
+    kind, re, im = spec[0][1], spec[1][1], spec[2][1]
+    if r['status'] != 'ok' or r['ret'] == H_THROW: return True, f"round: {r['status']} / threw"
+    o = r['outs'][0]; exp = [c_round(re), c_round(im) if kind in (1, 3) else 0.0]
+    return (o[0] != exp[0] or o[1] != exp[1]), f"round({re!r}" + (f" + {im!r}i" if kind in (1, 3) else '') + f") [{['scalar', 'complex scalar', 'array', 'complex array'][kind]}] = {o[:2]}, nearest integers (halves away from zero) are {exp}"
 def o_angle(spec, r, extra):
     re, im = spec[0][1], spec[1][1]
     if r['status'] != 'ok': return True, f"angle: {r['status']}"
     exp = math.atan2(im, re)
     bad = (r['ret'] != r['ret']) or abs(r['ret'] - exp) > 4 * 2.0 ** -52 * 4 or (exp != 0 and math.copysign(1, r['ret']) != math.copysign(1, exp) and abs(exp) > 1e-300)
     return bad, f"angle({re!r} + {im!r}i) = {r['ret']!r}, arg of that number is {exp!r}"
-ORACLES = {'shape': o_shape, 'arange': o_arange, 'arange_f': o_arange_f, 'reduce': o_reduce, 'angle': o_angle, 'power': o_power}
+ORACLES = {'shape': o_shape, 'arange': o_arange, 'arange_f': o_arange_f, 'reduce': o_reduce, 'angle': o_angle, 'power': o_power, 'round': o_round}
 
 def job_arange_i(res, combos):
     """start and step enumerated (concrete), stop symbolic in [-12, 12]: on every path count and values == python range(start, stop, step)"""
@@ -169,8 +179,14 @@ def job_arange_i(res, combos):
 def job_arange_f(res):
     """fractional arange whose count (stop-start)/step is integral: concrete grid (no quantified input left beyond the grid) - count and values"""
     mod, so = load(HARNESS)
-    for (a, s_, n) in [(-1.0, 0.1, 10), (-1.0, 0.5, 4), (0.0, 0.25, 12), (2.0, -0.5, 8), (0.5, 1.5, 5), (-3.0, 0.125, 24), (10.0, -2.5, 4), (0.0, 0.3, 10), (1.0, 0.7, 7)]:
-        b = a + n * s_; m = Machine(mod); y = m.alloc_doubles([0.0] * 64, 'y')
+    grid = [(a, a + n * s_, s_, n) for (a, s_, n) in [(-1.0, 0.1, 10), (-1.0, 0.5, 4), (0.0, 0.25, 12), (2.0, -0.5, 8), (0.5, 1.5, 5), (-3.0, 0.125, 24), (10.0, -2.5, 4), (0.0, 0.3, 10), (1.0, 0.7, 7)]]
+    # stops written as decimal literals: the quotient (stop - start) / step then lands an ulp above or below the integral count
+    for s_ in (0.1, 0.2, 0.3, 0.4, 0.6, 0.7, 0.9, 1.1, 1.3):
+        for n in range(1, 13):
+            for a in (0.0, 1.0, -2.0):
+                grid.append((a, float(repr(round(a + n * s_, 9))), s_, n))
+    for (a, b, s_, n) in grid:
+        m = Machine(mod); y = m.alloc_doubles([0.0] * 64, 'y')
         try: r = m.call('@h_arange_f', [a, b, s_, y, 64])
         except (Throw, UB): r = None
         res.absorb(m); vals = m.read_doubles(y, n) if r == n else []
@@ -424,7 +440,32 @@ def job_power_sym(res):
             ob(c == 1 and timed_check(q, res) == z3.unsat, f'power(real x, int {ni}) == {want} for every x != 0', f'power:2:int{ni}', 2, ni)
     except (Throw, UB, Unsupported) as e: res.inc(f'power symbolic: {type(e).__name__} {str(e)[:200]}')
 
-JOBFNS = {'cumsum': job_cumsum, 'power_points': job_power_points, 'power_sym': job_power_sym, 'arange_i': job_arange_i, 'arange_f': job_arange_f, 'shape': job_shape, 'reduce': job_reduce, 'linspace': job_linspace, 'angle': job_angle}
+def job_round(res):
+    """round (scalar / complex / arrays) with symbolic arguments: the result must be the nearest integer with halves away from zero for every x (z3 over the reals with integer-part semantics),
+    plus the ground points that separate the usual wrong implementations (negative ties, the value just below 0.5, odd integers above 2^52)"""
+    mod, so = load(HARNESS)
+    for kind in range(4):
+        m = Machine(mod); out = m.alloc_doubles([0.0] * 4, 'out')
+        try: cnt = m.call('@h_round', [kind, fsym('re'), fsym('im'), out])
+        except (Throw, UB, Unsupported) as e: res.absorb(m); res.inc(f'round kind {kind}: {type(e).__name__} {str(e)[:100]}'); continue
+        res.absorb(m); o = m.read_doubles(out, 2); X = z3.Real('re'); Y = z3.Real('im')
+        fl = lambda e: z3.ToReal(z3.ToInt(e)); rnd = lambda e: z3.If(e >= 0, fl(e + z3.RealVal('1/2')), -fl(-e + z3.RealVal('1/2')))
+        lo = [m.lower(v) if isF(v) else z3.RealVal(Fraction(v)) for v in o]
+        sol = z3.Solver(); sol.add(*m.pc); sol.add(X >= -1000, X <= 1000, Y >= -1000, Y <= 1000)
+        sol.add(z3.Or(lo[0] != rnd(X), lo[1] != (rnd(Y) if kind in (1, 3) else z3.RealVal(0)))); c = timed_check(sol, res)
+        nm = ['round(real)', 'round(cmplx)', 'round(arr_real)', 'round(arr_cmplx)'][kind]
+        if c == z3.unsat: res.ob(True, 'LIRA', f'{nm}: forall |x| <= 1000: nearest integer, halves away from zero')
+        elif c == z3.sat:
+            mdl = model_dict(sol); confirm(res, PID, HARNESS, 'h_round', [('i32', kind), ('f64', model_float(mdl, 're', -0.5)), ('f64', model_float(mdl, 'im', -2.5)), ('pf64', [0.0] * 4)], 'i32', 'round', ORACLES, f'round:{kind}', f'{nm}: not the nearest integer with halves away from zero')
+        else: res.inc(f'{nm}: query unknown')
+        for (re, im) in [(-0.5, 2.5), (-2.5, -0.5), (0.49999999999999994, -0.49999999999999994), (4503599627370497.0, -4503599627370499.0), (2.5, 3.5), (-0.0, 0.0), (1e300, -7.25)]:
+            m = Machine(mod); out = m.alloc_doubles([0.0] * 4, 'out'); m.call('@h_round', [kind, re, im, out]); res.absorb(m); o = m.read_doubles(out, 2)
+            ok = o[0] == c_round(re) and o[1] == (c_round(im) if kind in (1, 3) else 0.0)
+            sol = z3.Solver(); sol.add(z3.Not(z3.BoolVal(bool(ok))))
+            if timed_check(sol, res) == z3.unsat: res.ob(True, 'ground', f'{nm} at ({re!r}, {im!r})')
+            else: confirm(res, PID, HARNESS, 'h_round', [('i32', kind), ('f64', re), ('f64', im), ('pf64', [0.0] * 4)], 'i32', 'round', ORACLES, f'round:{kind}', f'{nm} at ({re!r}, {im!r}) = {o}')
+
+JOBFNS = {'round': job_round, 'cumsum': job_cumsum, 'power_points': job_power_points, 'power_sym': job_power_sym, 'arange_i': job_arange_i, 'arange_f': job_arange_f, 'shape': job_shape, 'reduce': job_reduce, 'linspace': job_linspace, 'angle': job_angle}
 
 def selftest(st):
     calls = [('h_arange_i', [('i32', a & 0xffffffff), ('i32', b & 0xffffffff), ('i32', s_ & 0xffffffff), ('pf64', [0.0] * 32), ('i32', 32)], 'i32') for a, b, s_ in [(0, 10, 1), (0, 10, 2), (1, 100 // 10, 3), (5, -5, -2), (-12, 12, 5)]]
@@ -450,7 +491,7 @@ def main(tier, seed):
     for n in ((1, 2, 4) if q else (1, 2, 3, 4, 5, 6)): jobs.append((f'reductions n={n}', 'reduce', dict(n=n), 3000))
     for n in ((1, 2, 5) if q else (1, 2, 3, 4, 5, 8, 16, 33)): jobs.append((f'cumsum n={n}', 'cumsum', dict(n=n), 600))
     for kind in range(13): jobs.append((f'power special points kind={kind}', 'power_points', dict(kinds=[kind]), 900))
-    jobs.append(('power symbolic', 'power_sym', {}, 600))
+    jobs.append(('power symbolic', 'power_sym', {}, 600)); jobs.append(('round', 'round', {}, 600))
     for n in ((1, 2, 5) if q else (1, 2, 3, 5, 10, 33, 100)): jobs.append((f'linspace n={n}', 'linspace', dict(n=n), 600))
     jobs.append(('angle special points', 'angle', {}, 300))
     return run_property(PID, tier, HARNESS, jobs, JOBFNS,
